@@ -37,6 +37,47 @@ COLLIDERS3 = [[("x", "", ","), ("x", ",", "")], [("a,b", "c", "d"), ("a", "b,c",
               [("a\\", ",", "b"), ("a", "\\,", "b")], [("a,", "b,", "c,"), ("a,", "b,", "c"), ("a,", "b,", "c\\")], [("1", "2", "3.0"), ("1", "2", "3")]]
 
 
+# numeric tables (the statement's "numeric-looking values" given as numbers): values that differ only beyond the 6th..16th
+# significant digit, so that any lossy number->string conversion ("%g", float32, rounding) fuses two groups. -0.0, NaN and
+# integers beyond 2**53 are not generated (their string and numeric equality differ legitimately).
+NUM_NEAR = [[1234567.0, 1234568.0], [1000000.5, 1000000.25], [0.1 + 0.2, 0.3], [1e-7, 1.0000001e-7], [1e16, 1e16 + 2.0],
+            [123456789.0, 123456788.0], [16777216.0, 16777217.0], [0.1, 0.10000000000000002], [1.0, 1.0000001], [3.0, 3.5]]
+NUM_PLAIN = [0.0, 1.0, 2.0, 0.5, 10.0, 100.0, 1e6, 1e-3, 7.25, 65536.0]
+INT_NEAR = [[1234567, 1234568], [16777216, 16777217], [12345678901, 12345678902], [1, 10], [100000, 1000000]]
+
+
+def gen_numeric_table(rng, ncols, ntuples_max=5):
+    ints = rng.random() < 0.3
+    near = INT_NEAR if ints else NUM_NEAR
+    plain = [int(v) for v in NUM_PLAIN if float(v).is_integer()] if ints else NUM_PLAIN
+    pair = near[int(rng.integers(0, len(near)))]
+    col = int(rng.integers(0, ncols))
+    base = [plain[int(rng.integers(0, len(plain)))] for _ in range(ncols)]
+    tuples = []
+    for v in pair:                      # tuples that differ in one cell only, by a nearly equal number
+        t = list(base)
+        t[col] = v
+        tuples.append(tuple(t))
+    k = int(rng.integers(2, ntuples_max + 1))
+    allv = plain + [v for pr in near for v in pr]
+    while len(tuples) < k:
+        t = tuple(allv[int(rng.integers(0, len(allv)))] for _ in range(ncols))
+        if t not in tuples:
+            tuples.append(t)
+    return tuples, ints
+
+
+def as_numeric_table(rng, rows, ncols, names, ints):
+    kind = gen.pick(rng, ["df", "ndarray", "lists"])
+    dt = np.int64 if ints else np.float64
+    if kind == "df":
+        return pd.DataFrame(np.asarray(rows, dtype=dt), columns=names,
+                            index=gen.hostile_index(len(rows), gen.pick(rng, gen.INDEX_KINDS), rng)), "num_df"
+    if kind == "ndarray":
+        return np.asarray(rows, dtype=dt).reshape(len(rows), ncols), "num_ndarray"
+    return [list(r) for r in rows], "num_lists"
+
+
 def cases(tier, seed):
     k = 420 if tier == "quick" else 12000
     return [("moments", i) for i in range(k)] + [("thresholder", i) for i in range(k // 2)]
@@ -60,6 +101,8 @@ def gen_table(rng, ncols, ntuples_max=5):
 
 
 def as_table(rng, rows, ncols, names):
+    if rows and not isinstance(rows[0][0], str):
+        return as_numeric_table(rng, rows, ncols, names, isinstance(rows[0][0], int))
     kind = gen.pick(rng, ["df", "ndarray", "lists"])
     if kind == "df":
         return pd.DataFrame(rows, columns=names, index=gen.hostile_index(len(rows), gen.pick(rng, gen.INDEX_KINDS), rng)), kind
@@ -82,8 +125,13 @@ def norm_partition(parts):
 def run_case(cls, key, seed, ctx):
     rng = rng_for(seed, ID, cls, key)
     ncols = int(gen.pick(rng, [2, 2, 3]))
-    tuples = gen_table(rng, ncols)
-    specials = sorted({ch for t in tuples for v in t for ch in v if ch in ",\\ "})
+    if rng.random() < 0.15:
+        tuples, ints = gen_numeric_table(rng, ncols)
+        specials = ["int" if ints else "float"]
+        ctx.ev("numeric_tables")
+    else:
+        tuples = gen_table(rng, ncols)
+        specials = sorted({ch for t in tuples for v in t for ch in v if ch in ",\\ "})
     if cls == "moments":
         return run_moments(ctx, rng, ncols, tuples, specials)
     return run_thresholder(ctx, rng, ncols, tuples, specials)
@@ -237,8 +285,8 @@ def run_thresholder(ctx, rng, ncols, tuples, specials):
     subsets = [rng.permutation(n).tolist()]
     for t, r in part.items():
         subsets.append(list(r))                                   # a single group
-    subsets.append([i for i in range(n) if "," not in "".join(rows[i])] or [0])   # table lacking the separator
-    subsets.append([i for i in range(n) if "\\" not in "".join(rows[i])] or [0])  # table lacking the escape character
+    subsets.append([i for i in range(n) if "," not in "".join(map(str, rows[i]))] or [0])   # table lacking the separator
+    subsets.append([i for i in range(n) if "\\" not in "".join(map(str, rows[i]))] or [0])  # table lacking the escape character
     subsets.append([int(rng.integers(0, n))])
     for sub in subsets:
         sub_rows = [rows[i] for i in sub]
